@@ -7,5 +7,43 @@ from ..tables import t5x_sampling as S
 def run(ctx: Ctx) -> None:
     T.run_identity(ctx)
     T.run_views(ctx)
+    T.run_param_matrix(ctx)
     T.run_composites(ctx)
     S.run_transformers(ctx)
+    ctx.floor("T12.identity", 40)
+    ctx.floor("T67.views", 20)
+    ctx.floor("T67.sequential", 10)
+    ctx.floor("T67.warp", 12)
+    ctx.floor("T67.pointset", 8)
+
+
+def mutants(prog):
+    from .common import source_sub
+    B, L, C, P, T = ("deepali.spatial.base", "deepali.spatial.linear", "deepali.spatial.composite", "deepali.spatial.parametric",
+                     "deepali.spatial.transformer")
+    specs = [
+        ("quaternion default", L, "QuaternionRotation.reset_parameters", "torch.tensor([1, 0, 0, 0]", "torch.tensor([0, 0, 0, 1]", "T12.identity"),
+        ("homogeneous default", L, "HomogeneousTransform.reset_parameters", "torch.eye(D, D + 1,", "torch.zeros(D, D + 1,", "T12.identity"),
+        ("parametric default one", P, "ParametricTransform.reset_parameters", "init.constant_(params, 0.0)", "init.constant_(params, 1.0)", "T12.identity"),
+        ("points: leaves transform axes via input grid", B, "SpatialTransform.points", "points = self.grid().transform_points(points, axes=self.axes(), to_grid=to_grid, to_axes=to_axes, decimals=None)", "points = grid.transform_points(points, axes=self.axes(), to_grid=to_grid, to_axes=to_axes, decimals=None)", "T67.views"),
+        ("points: input axes", B, "SpatialTransform.points", "points = grid.transform_points(points, axes=axes, to_grid=self.grid(), to_axes=self.axes(), decimals=None)", "points = grid.transform_points(points, axes=self.axes(), to_grid=self.grid(), to_axes=self.axes(), decimals=None)", "T67.views"),
+        ("disp: no re-expression", B, "SpatialTransform.disp", "data = U.homogeneous_matmul(post, data, pre)", "data = data", "T67.views"),
+        ("disp: pre/post swapped", B, "SpatialTransform.disp", "data = U.homogeneous_matmul(post, data, pre)", "data = U.homogeneous_matmul(pre, data, post)", "T67.views"),
+        ("sequential tensor order", C, "SequentialTransform.tensor", "mat = homogeneous_matmul(transform.tensor(), mat)", "mat = homogeneous_matmul(mat, transform.tensor())", "T67.sequential"),
+        ("sequential forward grid flag", C, "SequentialTransform.forward", "y = transform.forward(y, grid=grid and i == 0)", "y = transform.forward(y, grid=grid)", "T67.sequential-nonrigid"),
+        ("sequential forward restarts", C, "SequentialTransform.forward", "y = transform.forward(y, grid=grid and i == 0)", "y = transform.forward(points, grid=grid and i == 0)", "T67.sequential-nonrigid"),
+        ("multilevel composes", C, "MultiLevelTransform.forward", "u += y - x", "u = y - x", "T67.multilevel"),
+        ("composite disp other grid", C, "CompositeTransform.disp", "u = y - x", "u = y", "T67.sequential"),
+        ("affine member order", L, "AffineTransform.__init__", "transforms['scaling'] = AnisotropicScaling(grid, groups=groups, params=scaling)\n    transforms['rotation'] = EulerRotation(grid, groups=groups, params=rotation)", "transforms['rotation'] = EulerRotation(grid, groups=groups, params=rotation)\n    transforms['scaling'] = AnisotropicScaling(grid, groups=groups, params=scaling)", "T67.sequential"),
+        ("translation sign", L, "Translation.tensor", "if self.invert:", "if not self.invert:", "T"),
+        ("transformer: sampler target", T, "ImageTransformer.__init__", "SampleImage(target=transform.grid(), source=source,", "SampleImage(target=target, source=source,", "T67.warp"),
+        ("transformer: coords convention", T, "ImageTransformer.__init__", "x = target.coords(align_corners=transform.align_corners(), device=device)", "x = target.coords(device=device)", "T67.warp"),
+        ("transformer: no pre-map", T, "ImageTransformer.__init__", "x = target.transform_points(x, axes=transform.axes(), to_grid=transform.grid())", "x = x", "T67.warp"),
+        ("transformer: flip before map", T, "ImageTransformer.__init__", "x = target.coords(align_corners=transform.align_corners(), device=device)", "x = target.coords(align_corners=transform.align_corners(), flip=flip_coords, device=device)", "T67.warp"),
+        ("transformer: no flip back", T, "ImageTransformer.forward", "if self._flip_coords:", "if False:", "T67.warp"),
+        ("pointset: output grid", T, "PointSetTransformer.forward", "to_grid=self._to_grid, to_axes=self._to_axes", "to_grid=self._grid, to_axes=self._to_axes", "T67.pointset"),
+        ("pointset: input axes", T, "PointSetTransformer.forward", "points = self._grid.transform_points(points, axes=self._axes,", "points = self._grid.transform_points(points, axes=self._to_axes,", "T67.pointset"),
+    ]
+    for name, mod, fn, old, new, expect in specs:
+        ov = source_sub(prog, mod, fn, old, new)
+        yield (name if ov is not None else name + " [spec does not apply]", ov, expect)
